@@ -3,7 +3,14 @@
 //!   vh replay <file>
 mod common;
 mod hc;
+mod c01;
 mod c06;
+mod expect;
+mod sgen;
+mod model;
+mod outscan;
+mod pipeline;
+mod rustc;
 mod c11;
 mod worker;
 mod c12;
@@ -42,6 +49,7 @@ fn usage() -> ! {
 
 fn run(id: &str, tier: Tier) -> i32 {
     match id {
+        "C01" => c01::run(tier),
         "C06" => c06::run(tier),
         "C11" => c11::run(tier),
         "C12" => c12::run(tier),
@@ -61,6 +69,7 @@ fn replay(file: &str) -> i32 {
     let text = std::fs::read_to_string(file).expect("read replay file");
     let v: serde_json::Value = serde_json::from_str(&text).expect("replay file is JSON");
     match v["property"].as_str().unwrap_or("") {
+        "C01" => c01::replay(&v["case"]),
         "C06" => c06::replay(&v["case"]),
         "C11" => c11::replay(&v["case"]),
         "C12" => c12::replay(&v["case"]),
